@@ -62,12 +62,12 @@ def run(ctx):
     trans = r.generated
     total_blocks = total_tx = total_ok = 0
     stats = {}
-    import_refused = imports_ok = 0
+    import_refused = imports_ok = import_dur = 0
     import random
     rnd = random.Random(ctx.seed)
     for wi in range(nwl):
         wseed = ctx.seed * 100 + wi
-        export_points = sorted(rnd.sample(range(3, nblocks - 5), 4))
+        export_points = sorted(rnd.sample(range(nblocks // 2, nblocks - 5), 3) + [rnd.randrange(3, nblocks // 2)])
         dump = os.path.join(d, "dump%d" % wi)
         outs = []
 
@@ -92,11 +92,11 @@ def run(ctx):
                 out = os.path.join(d, "w%d-i%d-b%d.ndjson" % (wi, i, cand))
                 env = {"VERIF_OUT": out, "VERIF_SEED": wseed, "VERIF_BLOCKS": nblocks, "VERIF_REPLICA": 100 + i,
                        "VERIF_IMPORT_FILE": os.path.join(d, "w%d-export.json.%d" % (wi, cand)), "VERIF_DUMP_DIR": dump,
-                       "GOMAXPROCS": [16, 1][i % 2], "GOGC": [25, 300][i % 2]}
+                       "GOMAXPROCS": [16, 1, 4, 2][i % 4], "GOGC": [25, 300, 100, 50][i % 4]}
                 vlib.run_test(binary, "TestReplica", env, timeout=1500)
                 return out
-            with concurrent.futures.ThreadPoolExecutor(max_workers=2) as ex:
-                iouts = list(ex.map(imp, [1, 2]))
+            with concurrent.futures.ThreadPoolExecutor(max_workers=4) as ex:
+                iouts = list(ex.map(imp, [1, 2, 3, 4]))
             failed = [json.loads(l) for o in iouts for l in open(o) if '"importFailed"' in l]
             if failed:
                 import re
@@ -109,6 +109,10 @@ def run(ctx):
                 continue
             export_at = cand
             outs += iouts
+            for ln in open(outs[0]):
+                e = json.loads(ln)
+                if e["e"] == "export" and e["blk"] == cand:
+                    import_dur = max(import_dur, e.get("stats", {}).get("maxDistinctLockDurationsPerDenom", 0))
             break
         if export_at is None:
             log("workload %d: every export point was refused by the importer (listed finding); replica agreement still checked" % wi)
@@ -123,7 +127,7 @@ def run(ctx):
             e = json.loads(ln)
             if e["e"] == "export" and e.get("final"):
                 for k, v in e.get("stats", {}).items():
-                    stats[k] = stats.get(k, 0) + v
+                    stats[k] = max(stats.get(k, 0), v) if k.startswith("max") else stats.get(k, 0) + v
             if e["e"] == "block":
                 total_blocks += 1
                 total_tx += e["ntx"]
@@ -163,18 +167,22 @@ def run(ctx):
                     ctx.finding(sig, "after export/import module %s reports a different %s (exporter %s, importer %s; %s)"
                                 % (m, path, json.dumps(x)[:80], json.dumps(y)[:80], kind),
                                 {"workload_seed": wseed, "export_at_block": export_at, "module": m, "path": path, "kind": kind})
-        log("workload %d (seed %d, %d blocks, import after block %d): %d replicas + 2 importers agree" % (wi, wseed, nblocks, export_at, nrep))
+        log("workload %d (seed %d, %d blocks, import after block %d): %d replicas + 4 importers agree" % (wi, wseed, nblocks, export_at, nrep))
     for need in ("lockGaugesThatPaid", "clPositions", "locks", "pools", "factoryDenoms", "epoch:day"):
         if stats.get(need, 0) == 0:
             raise Infra("workloads never reached '%s': the determinism check would be vacuous there" % need)
+    if import_dur < 11:
+        raise Infra("no import happened at a state with more than 10 distinct lock durations on one denom (max %d): "
+                    "the rebuilt accumulation trees never split" % import_dur)
+    cov["max_distinct_lock_durations_at_an_import"] = import_dur
     cov["reached"] = stats
     if imports_ok == 0:
         raise Infra("no export could be imported in any workload: the import leg did not run")
     cov["imports_ok"], cov["imports_refused"] = imports_ok, import_refused
     if total_ok < 10 * nwl:
         raise Infra("workloads execute too few successful transactions (%d)" % total_ok)
-    cov.update({"states": states, "transitions": trans, "traces_validated_against_impl": nwl * (nrep + 2),
-                "workloads": nwl, "blocks_per_workload": nblocks, "os_processes": nwl * (nrep + 2),
+    cov.update({"states": states, "transitions": trans, "traces_validated_against_impl": nwl * (nrep + 4),
+                "workloads": nwl, "blocks_per_workload": nblocks, "os_processes": nwl * (nrep + 4),
                 "transactions": total_tx, "transactions_ok": total_ok, "known_finding_hits": dict(ctx.known_hit),
                 "checker_cmd": "bin/check C19 --tier " + ctx.tier})
     vlib.write_evidence("C19", ctx.tier, ctx.seed, "model_checking", cov, time.time() - ctx.t0,
